@@ -28,6 +28,7 @@ pub fn def() -> PropDef {
 
 pub fn profile() -> Profile {
     Profile {
+        text_conflict_prologue_permille: 120,
         replicas: (2, 6),
         events: (10, 160),
         w_fork: 1,
